@@ -23,7 +23,7 @@ EQUIV_DEPS = {
 TRUSTED_BASE_COMMON = [
     'Coq 8.16.1 kernel (coqc); vm_compute used for finite-domain reflection and refutation witnesses; native_compute not used',
     'no Axiom/Parameter/Admitted in /verif/coq (scanned on every run); Print Assumptions output parsed for every property theorem',
-    'translators /verif/translate/py2coq.py, c2coq.py (fail-closed, expression-level leaves only)',
+    'translators /verif/translate/py2coq.py, c2coq.py (fail-closed, expression-level leaves only; the inline C helpers of bitstring.h are only PARSED into the syntax of CExpr.v, whose C semantics and abstract evaluator are Coq definitions / theorems; the __GNUC__ branch of #ifdef is taken)',
     'extraction: Require Extraction + ExtrOcamlBasic only (bool, option, unit, list, prod, sumbool mapped to OCaml types; nat/N/Z/positive stay inductive); OCaml 4.13.1; ocaml/driver.ml (parsing/printing)',
     'correspondence harness (python: generators, canonicalisation, comparison); scratch build of the current working tree',
     'hand-written Impl/Spec model of fqe/*.py and fqe/lib/*.c outside the translated leaves: tied to the code by the correspondence only',
